@@ -131,8 +131,11 @@ func addScrubFieldsToSelectionSet(ctx *PlanningContext, selectionSet ast.Selecti
 		}
 		// check that union or interface definition
 		// contains ID field AND it's children implements node
+		// an abstract type may have no members at all
 		fd := t.Fields.ForName(common.IDFieldName)
-		isImplementsNode, _ = ctx.TypeURLMap.GetTypeIsImplementsNode(pt[0].Name)
+		if len(pt) > 0 {
+			isImplementsNode, _ = ctx.TypeURLMap.GetTypeIsImplementsNode(pt[0].Name)
+		}
 
 		isImplementsNode = isImplementsNode && fd != nil
 	} else {
